@@ -821,6 +821,10 @@ fn dfs(sw: &Sweep, hist: &mut Vec<Op>, st: &mut Stats, order: &mut u64, bodies: 
     }
     for op in &sw.alpha.ops {
         if enabled(hist, *op) {
+            if crate::report::wall_cap_hit() {
+                crate::report::note_skipped(1);
+                return;
+            }
             hist.push(*op);
             dfs(sw, hist, st, order, bodies);
             hist.pop();
